@@ -325,7 +325,11 @@ class EraseRule(sym.Rule):
         if er[2] != rargs[1]:
             return bad('erase does not extend to end()')
         sf = eng.load(st, size)
-        if rv is None or rv != lin_sub(s0, sf):
+        # the count removed: size before - size after, or the length of the erased range [result of
+        # std::remove, end) itself (the member erase reduces the size by exactly that, C01 R01.1)
+        esz = dd[2][0][1]
+        erased = sym.mk_divx(lin_sub(er[2], er[1]), esz) if esz > 0 else None
+        if rv is None or (rv != lin_sub(s0, sf) and rv != erased):
             return bad('the return value is not size before - size after')
         dk = (f.name, 'ok')
         if dk not in self.reports:
